@@ -24,7 +24,7 @@ RULE = ('a case = one (expression, input string, chunking) run of a real machine
         'then seeded larger ones; distinct by (expression text, input, chunking); non-trivial = the oracle comparison was evaluated (always) and the input is non-empty')
 ASSUMPTIONS = ['greenery syntax == re syntax for the generated constructs (checked: oracle vs re.fullmatch on every prefix)',
                "'.' and negated classes match any symbol, including ones outside the expression's alphabet"]
-REQUIRED = ['expressions:control-symbols', 'str:runs', 'str:accepted', 'str:rejected-nonterminal', 'str:stopped-before-end-accepting', 'str:input-exhausted-not-accepting',
+REQUIRED = ['expressions:hundreds-of-states', 'expressions:control-symbols', 'str:runs', 'str:accepted', 'str:rejected-nonterminal', 'str:stopped-before-end-accepting', 'str:input-exhausted-not-accepting',
             'bytes-ascii:runs', 'bytes-multibyte:runs', 'oracle:re-crosschecks', 'chunking:two-way', 'chunking:bytewise', 'bytes-multibyte:truncated-encoding']
 TIMEOUT = {'quick': 300, 'thorough': 2400}
 SOFT = {'quick': 40, 'thorough': 900}
@@ -295,11 +295,70 @@ def byte_oracle(dfa, chars, wb):
     return P, accepted
 
 
+def large_machines(ctx, mon, rng):
+    """Bounded repetitions that make machines of several hundred states (state labels beyond anything small), above all ones whose
+    first impossible symbol comes late, so that the dead state is among the last to be numbered.  Deterministic list, spread over the
+    shards; inputs are walked out of the oracle's own DFA: a sentence, the sentence continued, cut short, and spoilt at and around
+    the end of the repetition."""
+    from vlib import rx
+    any_, a, b, c = ('any',), ('lit', 'a'), ('lit', 'b'), ('lit', 'c')
+    reps = [257] if ctx.tier == 'quick' else [128, 255, 256, 257, 258, 300, 400]
+    asts = []
+    for n in reps:
+        asts += [('cat', ('rep', any_, n, n), a),
+                 ('cat', ('cat', any_, ('rep', any_, n - 1, n - 1)), ('set', 'ab')),
+                 ('cat', ('rep', ('nset', 'b'), n, n), ('cat', a, ('opt', c))),
+                 ('cat', ('rep', ('cat', any_, ('nset', 'b')), n // 2, n // 2), ('cat', any_, b))]       # (no ambiguous bodies: `re`, used to cross-check the oracle, backtracks exponentially on them)
+    if ctx.tier != 'quick':
+        asts += [('rep', a, 300, 300), ('cat', ('rep', ('set', 'ab'), 256, 260), ('opt', c)), ('cat', ('rep', ('cat', a, b), 130, 130), c)]
+    for k, ast in enumerate(asts):
+        if k % ctx.nshards != ctx.shard:
+            continue
+        text = rx.to_text(ast)
+        dfa = rx.DFA(ast)
+        try:
+            m_str = construct(mon.cpppo.regex, text, seconds=120)
+            m_byt = construct(mon.cpppo.regex_bytes, text, seconds=120)
+        except SlowConstruction:
+            ctx.count('skipped:greenery-construction-slow')
+            continue
+        except Exception as exc:
+            ctx.violation('construction-raises', 'regex(%r) construction raised %r' % (text, exc), {'regex': text})
+            continue
+        ctx.count('expressions:hundreds-of-states')
+        # a sentence: walk live states, preferring to go on, until an accepting state without live continuation (or a coin says stop)
+        sent, S = '', dfa.start
+        for _ in range(2000):
+            nxt = [ch for ch in 'abcz' if dfa.step(S, ch) in dfa.live]
+            if S in dfa.accept and (not nxt or rng.random() < 0.02):
+                break
+            if not nxt:
+                break
+            ch = rng.choice(nxt)
+            sent += ch
+            S = dfa.step(S, ch)
+        L = len(sent)
+        spoil = lambda i, ch: sent[:i] + ch + sent[i + 1:]
+        inputs = [sent, sent + 'zz', sent + 'a', sent[:-1], sent[:-1] + 'z' + 'zz', sent[:-1] + 'b' + 'zz', sent[:-1] + 'c', sent[:-2], sent[:L // 2],
+                  spoil(L // 2, 'b'), spoil(L - 2, 'b') + 'zz', spoil(0, 'b'), spoil(0, 'z'), spoil(255, 'b') if L > 256 else sent, spoil(256, 'z') if L > 257 else sent]
+        for w in inputs:
+            P, accepted, member = dfa.analyse(w)
+            if not mon.crosscheck(text, dfa, w, member):
+                return
+            for label, chunks in (('whole', [w]), ('seven-symbol-blocks', [w[i:i + 7] for i in range(0, len(w), 7)]), ('two-way', [w[:L - 1], w[L - 1:]])):
+                chunks = [ch for ch in chunks if ch]
+                mon.judge('str', text, m_str, w, chunks, label, P, accepted, False)
+                wb = w.encode('ascii')
+                mon.judge('bytes-ascii', text, m_byt, wb, [ch.encode('ascii') for ch in chunks], label, P, accepted, True)
+            ctx.count('large:inputs')
+
+
 def run(ctx):
     from vlib import rx
     mon = Mon(ctx)
     rng = ctx.rng
     quick = ctx.tier == 'quick'
+    large_machines(ctx, mon, rng)
     max_size = 3 if quick else 4
     max_len = 4 if quick else 6
     strings = list(rx.all_strings('abc', max_len))
